@@ -1,0 +1,76 @@
+//go:build verif
+
+package tars
+
+// Contracts for the deductive verifier in /verif (govc); comments only.
+//
+// Server side of a call (properties C01, C05, C10). Ghost fields of Protocol:
+//   ndisp   - number of times the implementation (dispatcher, or the legacy/middleware filter that
+//             wraps it) has been entered during this Invoke
+//   dispErr - the error returned by the dispatcher
+//
+// Pass-through filters: a registered pre/post server filter that passes the call through returns nil and
+// changes neither request nor response (that is the meaning of "pass-through" in property C01).
+//@ func dynamic:ServerFilter
+//@   formals self, ctx, d, f, req, resp, withContext
+//@   trusted
+//@   pure
+//@   ensures result == nil
+//
+//@ func (dispatch).Dispatch
+//@   formals self, ctx, imp, req, resp, withContext
+//@   trusted
+//@   requires req != nil && resp != nil
+//@   modifies *resp
+//@   allocates
+//@   ensures err == nil ==> (resp.IVersion == req.IVersion && resp.IRequestId == req.IRequestId)
+//@   ensures err != nil ==> (resp.IVersion == old(resp.IVersion) && resp.IRequestId == old(resp.IRequestId))
+//@   ensures istype(err, "*Error") ==> cast(err, "*Error") != nil
+//
+//@ func CheckPanic
+//@   trusted
+//@   pure
+//
+//@ func ReportStatFromServer
+//@   trusted
+//@   pure
+//
+//@ func (*application).getMiddlewareServerFilter
+//@   trusted
+//@   pure
+//
+//@ func (*Protocol).Invoke$1
+//@   pure
+//@   safety [C05]
+//
+//@ func (*Protocol).Invoke$2
+//@   pure
+//@   safety [C05]
+//
+//@ func (*Error).Error
+//@   requires e != nil
+//@   pure
+//@   ensures [C01,C10] result == e.Message
+//@   safety [C05]
+//
+//@ func (*Protocol).rsp2Byte
+//@   trusted
+//@   requires rsp != nil
+//@   pure
+//
+//@ func (*Protocol).Invoke
+//@   requires s != nil && s.app != nil && s.app.allFilters != nil && s.dispatcher != nil && ctx != nil
+//@   requires [C05] len(req) >= 4
+//@   requires s.ndisp == 0 && s.dispErr == nil
+//@   modifies s.ndisp, s.dispErr
+//@   allocates
+//@   site Dispatch#0 assert [C10] reqPackage.SFuncName != "tars_ping"
+//@   site Dispatch#0 ghost s.ndisp = s.ndisp + 1
+//@   site Dispatch#0 ghostafter s.dispErr = $ret
+//@   site rsp2Byte#0 assert [C10] rspPackage.IVersion == reqPackage.IVersion && rspPackage.IRequestId == reqPackage.IRequestId && rspPackage.CPacketType == reqPackage.CPacketType
+//@   site rsp2Byte#0 assert [C10] s.ndisp <= 1
+//@   site rsp2Byte#0 assert [C01,C10] s.dispErr != nil ==> ((istype(s.dispErr, "*Error") ? rspPackage.IRet == cast(s.dispErr, "*Error").Code : rspPackage.IRet == 1) && rspPackage.SResultDesc == errMsg(s.dispErr))
+//@   loop 0 invariant s != nil && s.app != nil && s.dispatcher != nil && s.ndisp == 0 && s.dispErr == nil
+//@   loop 1 invariant s != nil && s.app != nil && s.dispatcher != nil && s.ndisp == 1
+//@   loop 1 invariant err == s.dispErr && (istype(s.dispErr, "*Error") ==> cast(s.dispErr, "*Error") != nil)
+//@   safety [C05]
